@@ -1,6 +1,7 @@
 package e4
 
 import (
+	"time"
 	"fmt"
 	"net/http"
 	"strings"
@@ -10,6 +11,12 @@ import (
 // canonical form of the answer.
 func (e *Engine) Do(h http.Handler, method, path string, browser bool, body string) (int, string) {
 	r := e.do(h, method, path, browser, body)
+	return r.status, r.canon
+}
+
+// DoSlow is Do with the request body delivered in two parts, `pause` apart.
+func (e *Engine) DoSlow(h http.Handler, method, path string, browser bool, body string, pause time.Duration) (int, string) {
+	r := e.do(h, method, path, browser, body, pause)
 	return r.status, r.canon
 }
 
